@@ -1560,8 +1560,11 @@ class Cell(Bucket):
         """
         for app in queue:
             if app.server and app.server not in servers:
+                # Same bookkeeping as Server.remove().
                 app.server = None
                 app.evicted = True
+                app.unschedule = False
+                app.placement_expiry = None
                 app.release_identity()
             elif app.server and app.allocation is not None:
                 # App was assigned to different allocation (partition or
